@@ -274,6 +274,22 @@ def skip_guard_check(ctx, rid, fi, callee, label):
     return True
 
 
+def own_shared_dim(nm, e):
+    """Is `nm` (the axis= of a per-dimension call inside the loop of reindex_like / interp_like) the name of one of the array's own axes that the
+    template has too? Either tested inside the loop (for ax in self.axes: if ax.name in newdims) or collected beforehand
+    (for dim in [ax.name for ax in self.axes if ax.name in newdims], list or generator). Returns 'ok', 'not-own' or 'unfiltered'."""
+    own_inside = nm[0] == 'attr' and nm[2] == 'name' and nm[1][0] == 'elem' and nm[1][1] == ('attr', SELF, 'axes')
+    own_before = nm[0] == 'elem' and nm[1][0] == 'comp' and len(nm[1][3]) == 1 and nm[1][3][0][1] == ('attr', SELF, 'axes') \
+        and nm[1][2] == ('attr', ('elem', ('attr', SELF, 'axes'), nm[1][3][0][0]), 'name')
+    if not (own_inside or own_before):
+        return 'not-own'
+    if own_inside:
+        g = [pol for a, pol in e.guards if a[0] == 'cmp' and a[1] == 'in' and a[2] == nm]
+    else:
+        g = [True for cnd in nm[1][3][0][2] if cnd[0] == 'cmp' and cnd[1] == 'in' and cnd[2] == nm[1][2]]
+    return 'ok' if g == [True] else 'unfiltered'
+
+
 def rule_reindex_like(ctx):
     ctx.rule('R4', 'reindex_like accumulates over the shared dimensions', 1)
     fi = ctx.fn(AL + 'reindex_like')
@@ -298,17 +314,24 @@ def rule_reindex_like(ctx):
         if not e.loops:
             ctx.violated('R4', fi, e.node, 'reindex_axis must be applied per dimension', node=e.node)
             continue
-        ax = None
-        for x in T.subterms(c):
-            if x[0] == 'elem' and x[1] == ('attr', SELF, 'axes'):
-                ax = x
-        nm = ('attr', ax, 'name') if ax else None
+        # the dimension: a name of one of the array's own axes that also is a name of the template - either tested inside the loop
+        # (for ax in self.axes: if ax.name in newdims) or collected beforehand (for dim in [ax.name for ax in self.axes if ax.name in newdims])
+        nm = T.kw(c, 'axis')
         labels = c[2][0] if c[2] else None
         want_labels = ('attr', ('sub', ('attr', OTHER, 'axes'), nm), 'values')
-        if ax is None or T.kw(c, 'axis') != nm or labels != want_labels:
+        if nm is None or labels != want_labels:
             ctx.violated('R4', fi, e.node, 'labels and axis= must refer to the same dimension name (other.axes[ax.name].values, axis=ax.name)', node=e.node)
             continue
-        g = [pol for a, pol in e.guards if a[0] == 'cmp' and a[1] == 'in' and a[2] == nm]
+        own_inside = nm[0] == 'attr' and nm[2] == 'name' and nm[1][0] == 'elem' and nm[1][1] == ('attr', SELF, 'axes')
+        own_before = nm[0] == 'elem' and nm[1][0] == 'comp' and len(nm[1][3]) == 1 and nm[1][3][0][1] == ('attr', SELF, 'axes') \
+            and nm[1][2] == ('attr', ('elem', ('attr', SELF, 'axes'), nm[1][3][0][0]), 'name')
+        if not (own_inside or own_before):
+            ctx.violated('R4', fi, e.node, 'the dimensions to reindex must be names of the array\'s own axes (found %s)' % T.show(nm)[:80], node=e.node)
+            continue
+        if own_inside:
+            g = [pol for a, pol in e.guards if a[0] == 'cmp' and a[1] == 'in' and a[2] == nm]
+        else:
+            g = [True for cnd in nm[1][3][0][2] if cnd[0] == 'cmp' and cnd[1] == 'in' and cnd[2] == nm[1][2]]
         if g != [True]:
             ctx.violated('R4', fi, e.node, 'only dimensions present in the template are reindexed', node=e.node)
             continue
